@@ -7,14 +7,35 @@ from . import designs as D
 from . import i12_oracle as O
 
 
-def main():
-    req = json.load(sys.stdin)
+def _short_smgen_timer():
+    """SMGen's search gives up when a 60 s threading.Timer fires; shorten that to 3 s (same code path)."""
+    import threading
+    import types
+    import sweetpea._internal.sampling_strategy.scattered_map_core as SM
+
+    class _T(threading.Timer):
+        def __init__(self, interval, fn, *a, **k):
+            super().__init__(min(interval, 3), fn, *a, **k)
+    SM.threading = types.SimpleNamespace(Timer=_T)
+
+
+def one(req):
+    if req.get("strategy") == "SMGen":
+        _short_smgen_timer()
     try:
         blk = D.build(req["desc"]).block
         exps = O.synth(blk, req["n"], req["strategy"])
-        out = {"ok": exps}
+        return {"ok": exps}
     except Exception as e:                      # reported to the parent, which decides what it means
-        out = {"exc": type(e).__name__, "msg": str(e)[:300]}
+        return {"exc": type(e).__name__, "msg": str(e)[:300]}
+
+
+def main():
+    req = json.load(sys.stdin)
+    if "jobs" in req:                           # several calls in ONE process (state kept between calls matters)
+        out = {"results": [one(j) for j in req["jobs"]]}
+    else:
+        out = one(req)
     sys.stdout.write("\n@@RESULT@@" + json.dumps(out) + "\n")
 
 
